@@ -1577,7 +1577,11 @@ func runSkip(c *hx.Ctx) error {
 		runSegRanges(c, r)
 		runLocIter(c, r)
 	}
-	for i := 0; i < n/16; i++ {
+	nIP := n / 16
+	if nIP > 8000 {
+		nIP = 8000
+	}
+	for i := 0; i < nIP; i++ {
 		if err := runBloomIP(c, r, work); err != nil {
 			return err
 		}
